@@ -40,7 +40,7 @@ def junk_text(draw):
 # ---------------------------------------------------------------- (a) command lines
 @st.composite
 def btcdeb_cmd(draw):
-    kind = draw(st.sampled_from(['script', 'script', 'script-z', 'script-junk', 'spend', 'spend-mutated', 'tx-only', 'options', 'select', 'stdin-edge']))
+    kind = draw(st.sampled_from(['script', 'script', 'script-z', 'script-junk', 'spend', 'spend-mutated', 'spend-witshape', 'spend-witshape', 'tx-only', 'options', 'select', 'stdin-edge']))
     argv, stdin = [], b''
     comp = kind
     if kind in ('script', 'script-z'):
@@ -56,10 +56,15 @@ def btcdeb_cmd(draw):
         stdin = draw(st.one_of(st.just(junk_text(draw).encode()), st.binary(max_size=40))) + draw(st.sampled_from([b'\n', b'', b'\r\n']))
         argv += [junk_text(draw) for _ in range(draw(st.integers(0, 2)))]
         argv = [a for a in argv if not a.startswith('-') or a in ('-1',)]
-    elif kind in ('spend', 'spend-mutated', 'select'):
+    elif kind in ('spend', 'spend-mutated', 'select', 'spend-witshape'):
         rnd = draw(st.randoms(use_true_random=False))
-        c = S.build(rnd, draw(st.sampled_from(S.TYPES)), same_fund_decoy=draw(st.booleans()))
-        S.corrupt(c, draw(st.sampled_from(S.CORR)), rnd)
+        if kind == 'spend-witshape':
+            # unusual witness stack shapes on witness-program outputs (lone annex-tagged item, only empty items, ...)
+            c = S.build(rnd, draw(st.sampled_from(['p2tr-key', 'p2tr-key', 'p2tr-script', 'p2wpkh', 'p2wsh', 'p2sh-p2wsh', 'p2sh-p2wpkh'])), ninputs=draw(st.sampled_from([None, 1])))
+            S.corrupt(c, 'wit_shape', rnd)
+        else:
+            c = S.build(rnd, draw(st.sampled_from(S.TYPES)), same_fund_decoy=draw(st.booleans()))
+            S.corrupt(c, draw(st.sampled_from(S.CORR)), rnd)
         txh, inh = c['tx'].ser().hex(), c['fund'].ser().hex()
         if kind == 'spend-mutated':
             which = draw(st.sampled_from(['tx', 'txin', 'both']))
